@@ -8,6 +8,7 @@
 // ops (one line each):
 //
 //	new                                         fresh MemDB + deadliner (episode reset)
+//	cfg <keepFirstAgg 0|1> <checkSlot 0|1>      like new; tells the model which proposed fixes the tree has
 //	store <ty> <slot> <a|x> <entry>*            Store(duty{slot,ty}, set); a: deadliner answers by its
 //	                                            expired set, x: deadliner answers exempt.
 //	                                            The entries are listed in the order in which Store's map
@@ -33,6 +34,7 @@ package main
 import (
 	"context"
 	"fmt"
+	"os"
 	"runtime"
 	"sort"
 	"strconv"
@@ -407,6 +409,7 @@ type episode struct {
 	// monitor state
 	answers map[string][]ansRec
 	gen     map[string]int    // deletions of the key observed so far
+	foreign map[string]bool   // key was deleted while its own duty had not expired (through another slot's index)
 	writer  map[string]string // duty ("att/7") of the Store that inserted the key's current value
 	seen    map[string]map[string]bool
 }
@@ -419,7 +422,7 @@ var kindOfTy = map[string]byte{"att": 'a', "pro": 'p', "agg": 'g', "con": 'c'}
 func newEpisode() *episode {
 	dl := &scriptDL{expired: map[core.Duty]bool{}, ch: make(chan core.Duty, 4096)}
 	e := &episode{db: dutydb.NewMemDB(dl), dl: dl, kv: map[string]string{}, answers: map[string][]ansRec{},
-		gen: map[string]int{}, writer: map[string]string{}, seen: map[string]map[string]bool{}}
+		gen: map[string]int{}, foreign: map[string]bool{}, writer: map[string]string{}, seen: map[string]map[string]bool{}}
 	e.snap = e.db.VerifSnapshot()
 	return e
 }
@@ -566,6 +569,8 @@ func (e *episode) recordAnswer(run *hx.Run, key, val string, extra map[string]ma
 		switch {
 		case key[0] == 'G' && p.gen == g:
 			run.Violate("dutydb:agg_replaced_same_root", fmt.Sprintf("key %s answered %s (op %d) and now %s: aggregate with the same data root replaced the stored one", key, p.val, p.op, val))
+		case p.gen != g && e.foreign[key]:
+			run.Violate("dutydb:answer_changed_after_expiry_cross_slot", fmt.Sprintf("key %s answered %s (op %d), was deleted by the expiry of another slot's duty (index slot differs from the key's slot) and now answers %s", key, p.val, p.op, val))
 		case p.gen != g && e.writer[key] != "" && e.writer[key] != keyDuty(key):
 			run.Violate("dutydb:answer_changed_after_expiry_cross_slot", fmt.Sprintf("key %s answered %s (op %d) before its duty %s expired and now %s, stored under duty %s", key, p.val, p.op, keyDuty(key), val, e.writer[key]))
 		case p.gen != g:
@@ -813,6 +818,13 @@ func (e *episode) doStore(run *hx.Run, ty string, slot uint64, st string, entrie
 		}
 		e.seen[k][v] = true
 	}
+	// keys absent before this call that its (visited) entries supply: if they get answered, it is this call's data
+	// (covers keys inserted and deleted again by the expiry loop of the same call)
+	for k := range extra {
+		if _, was := pre[k]; !was {
+			e.writer[k] = dstr
+		}
+	}
 	prev := e.kv
 	e.kv, e.snap = post, s
 	// answers: which of our queries were resolved inside this call
@@ -835,6 +847,9 @@ func (e *episode) doStore(run *hx.Run, ty string, slot uint64, st string, entrie
 	}
 	for k := range gone {
 		e.gen[k]++
+		if !e.dutyExpired(keyDuty(k)) {
+			e.foreign[k] = true
+		}
 	}
 	if err == nil {
 		if k := kindOfTy[ty]; k != 0 {
@@ -1025,7 +1040,7 @@ func main() {
 		if len(f) == 0 {
 			return
 		}
-		if f[0] != "new" && ep == nil {
+		if f[0] != "new" && f[0] != "cfg" && ep == nil {
 			ep = newEpisode()
 		}
 		n := func(i int) uint64 {
@@ -1039,6 +1054,12 @@ func main() {
 			return v
 		}
 		switch f[0] {
+		case "cfg": // model configuration (which proposed fixes the tree under test has); also resets
+			if ep != nil {
+				ep.close()
+			}
+			ep = newEpisode()
+			run.Op(op, "ok")
 		case "new":
 			if ep != nil {
 				ep.close()
@@ -1091,6 +1112,11 @@ func main() {
 		return
 	}
 
+	// VERIF_C06_CFG="<keepFirstAgg><checkSlot>" (e.g. "10"): the tree under test carries the proposed
+	// fix(es); tell the model. Default: the model's own default (Driver/DutyDB.lean `defaultCfg`).
+	if c := os.Getenv("VERIF_C06_CFG"); len(c) == 2 {
+		exec(fmt.Sprintf("cfg %c %c", c[0], c[1]))
+	}
 	rng := hx.NewRng(a.Seed)
 	slots := []uint64{7, 8, 9}
 	pick := func(xs []uint64) uint64 { return xs[rng.Intn(len(xs))] }
@@ -1235,6 +1261,14 @@ func main() {
 				toks := make([]string, len(es))
 				for i, en := range es {
 					toks[i] = en.token()
+					// queries that this store is going to answer (or not, if it fails / clashes)
+					if ws := en.writes(); len(ws) > 0 && rng.Chance(2, 5) {
+						for j := 0; j < 1+rng.Intn(2); j++ {
+							if f := keyOp(ws[rng.Intn(len(ws))].key); f[0] != "pubkey" && run.NOps < a.N {
+								exec("await " + strings.Join(f, " "))
+							}
+						}
+					}
 				}
 				exec(strings.TrimSpace(fmt.Sprintf("store %s %d %s %s", ty, dslot, st, strings.Join(toks, " "))))
 			case c < 68: // await
@@ -1263,7 +1297,7 @@ func main() {
 					}
 				}
 				exec("await " + strings.Join(f, " "))
-			case c < 75: // cancel
+			case c < 76: // cancel
 				var blocked []int
 				for _, q := range ep.queries {
 					if q.state == 0 {
@@ -1275,7 +1309,7 @@ func main() {
 				} else {
 					exec(fmt.Sprintf("cancel %d", rng.Intn(len(ep.queries)+2)))
 				}
-			case c < 88: // expire
+			case c < 83: // expire
 				ty := []string{"att", "pro", "agg", "con"}[rng.Intn(4)]
 				if rng.Chance(1, 25) {
 					ty = []string{"bld", "oth"}[rng.Intn(2)]
